@@ -379,6 +379,57 @@ TVStateFile ==
               \cup Fail("NameSetsMatchDimensions", Ev.nRowNames = NR(got) /\ Ev.nColNames = NC(got)),
               Ev.o, s1, memo, Forget(Ev.o))
 
+\* ---- C12: a written file read back gives an equivalent LP.  Rows and columns are matched BY NAME (the LP reader numbers
+\* columns by first appearance); LP format splits a ranged row "n" into "n_1" (>= lhs) and "n_2" (<= rhs); MPS format
+\* turns a maximisation into the equivalent minimisation; a column with zero cost that appears in no row is dropped
+\* unless the file was written with write-zero-objective.
+NumClose(a, b, exact) == \/ a = b
+                         \/ ~exact /\ BRIsFinite(a) /\ BRIsFinite(b) /\ BRLeq(BRAbs(BRSub(a, b)), BRAdd("1/1000000000000000", BRMulPow2(BRAbs(a), -50)))
+NamedVec(v, names) == { <<names[v[k][1] + 1], v[k][2]>> : k \in 1..Len(v) }
+VecClose(A, B, exact) == /\ { e[1] : e \in A } = { e[1] : e \in B }
+                         /\ \A e \in A : \E g \in B : g[1] = e[1] /\ NumClose(e[2], g[2], exact)
+ExpRows(p, rn, cn, fmt) ==
+   UNION { LET v == NamedVec(p.rows[i], cn) IN
+           IF fmt = "lp" /\ BRIsFinite(p.lhs[i]) /\ BRIsFinite(p.rhs[i]) /\ p.lhs[i] # p.rhs[i]
+           THEN { [name |-> rn[i] \o "_1", lhs |-> p.lhs[i], rhs |-> "inf", vec |-> v], [name |-> rn[i] \o "_2", lhs |-> "-inf", rhs |-> p.rhs[i], vec |-> v] }
+           ELSE { [name |-> rn[i], lhs |-> p.lhs[i], rhs |-> p.rhs[i], vec |-> v] }
+           : i \in 1..NR(p) }
+Droppable(p, j) == p.obj[j] = "0" /\ \A i \in 1..NR(p) : Coef(p.rows[i], j - 1) = "0"
+TVFileRoundTrip ==
+   /\ Ev.a = "fileRoundTrip" /\ Ev.src \in Live /\ Ev.o \notin Live
+   /\ LET src == objs[Ev.src]  st == Ev.st  rational == Ev.mode = "rational"
+          p0 == IF rational THEN src.qlp ELSE src.rlp
+          flip == Ev.fmt = "mps" /\ p0.sense = 1
+          p == IF flip THEN [p0 EXCEPT !.sense = -1, !.obj = [j \in 1..NC(p0) |-> BRNeg(p0.obj[j])]] ELSE p0
+          g0 == IF rational THEN st.q ELSE st
+          shape == StShapeOK(g0) /\ Len(Ev.rowNames) = g0.nr /\ Len(Ev.colNames) = g0.nc
+          g == LPOfSt(g0)
+          exact == rational \/ Ev.fmt = "lp"
+          erows == ExpRows(p, Ev.srcRowNames, Ev.srcColNames, Ev.fmt)
+          grows == { [name |-> Ev.rowNames[i], lhs |-> g.lhs[i], rhs |-> g.rhs[i], vec |-> NamedVec(g.rows[i], Ev.colNames)] : i \in 1..NR(g) }
+          keepCols == { j \in 1..NC(p) : Ev.wzo \/ ~Droppable(p, j) }
+          s1 == [NewObject EXCEPT !.rlp = [LPOfSt(st) EXCEPT !.offset = st.offset], !.status = st.status, !.hasQ = st.hasQ, !.sync = st.sync,
+                                  !.qlp = IF st.hasQ /\ StShapeOK(st.q) THEN LPOfSt(st.q) ELSE EmptyLP, !.epsz = st.epsParam, !.ftol = st.feastolParam]
+      IN Step(IF ~Ev.wret THEN {"WriteFileFailed"} ELSE IF ~Ev.rret THEN {"ReadBackFailed"} ELSE IF ~shape THEN {"StShape"} ELSE
+              Fail("Sense", g.sense = p.sense)
+              \cup Fail("RowNames", { r.name : r \in grows } = { r.name : r \in erows } /\ Cardinality(grows) = NR(g))
+              \cup Fail("Rows", \A r \in erows : \E q \in grows : q.name = r.name /\ NumClose(r.lhs, q.lhs, exact) /\ NumClose(r.rhs, q.rhs, exact) /\ VecClose(r.vec, q.vec, exact))
+              \cup Fail("ColumnsKept", { Ev.srcColNames[j] : j \in keepCols } \subseteq { Ev.colNames[k] : k \in 1..NC(g) }
+                                       /\ { Ev.colNames[k] : k \in 1..NC(g) } \subseteq { Ev.srcColNames[j] : j \in 1..NC(p) } /\ Cardinality({ Ev.colNames[k] : k \in 1..NC(g) }) = NC(g))
+              \cup Fail("Columns", \A k \in 1..NC(g) : \A j \in 1..NC(p) : Ev.colNames[k] = Ev.srcColNames[j] =>
+                                       NumClose(p.obj[j], g.obj[k], exact) /\ NumClose(p.lo[j], g.lo[k], exact) /\ NumClose(p.up[j], g.up[k], exact))
+              \cup (IF rational /\ st.sync = 1 THEN InSyncFails(LPOfSt(st), g) ELSE {}),
+              Ev.o, s1, memo, Forget(Ev.o))
+
+\* the dual LP produced by the dual writer has the same optimal value as the primal (witness optimum)
+TVDualFile ==
+   /\ Ev.a = "dualFile" /\ Ev.o \in Live
+   /\ LET s == objs[Ev.o]  t == KeepT(Ev.o)[Ev.o] IN
+      Step(Fail("WriteDualFile", Ev.wret) \cup Fail("ReadDualFile", Ev.rret)
+           \cup Fail("DualHasSameOptimum", t.known /\ t.v = "OPT" /\ Ev.nr > 0 /\ Ev.nc > 0 =>
+                        Ev.status = ST_OPTIMAL /\ BRLeq(BRAbs(BRSub(Ev.objval, t.val)), BRMul("1/100000", BRAdd("1", BRAbs(t.val)))))
+           \cup ProjFails(s, Ev.st), Ev.o, s, memo, KeepT(Ev.o))
+
 \* C09 on a bare SPxLPBase: scale (exponents chosen by the code are logged), then unscale
 BareLP(b) == [rows |-> b.rows, lhs |-> b.lhs, rhs |-> b.rhs, lo |-> b.lo, up |-> b.up, obj |-> b.maxobj, sense |-> 1, offset |-> "0"]
 TVScalerBare ==
@@ -397,7 +448,7 @@ TVScalerBare ==
 Init == objs = <<>> /\ memo = NoMemo /\ truth = <<>> /\ l = 1
 Next == /\ l <= Len(Tr)
         /\ \/ TVReset \/ TVCreate \/ TVMod \/ TVSetInt \/ TVSetBool \/ TVSetReal \/ TVSetSettingsFrom \/ TVSync \/ TVWitness
-           \/ TVOptimize \/ TVSetBasis \/ TVClearBasis \/ TVQueryBasis \/ TVCopy \/ TVDestroy \/ TVScalerBare \/ TVBinv \/ TVWitnessQ \/ TVOptimizeQ \/ TVBasisFile \/ TVStateFile
+           \/ TVOptimize \/ TVSetBasis \/ TVClearBasis \/ TVQueryBasis \/ TVCopy \/ TVDestroy \/ TVScalerBare \/ TVBinv \/ TVWitnessQ \/ TVOptimizeQ \/ TVBasisFile \/ TVStateFile \/ TVFileRoundTrip \/ TVDualFile
 Spec == Init /\ [][Next]_vars
 
 \* acceptance: one state per consumed line plus the initial state
